@@ -3,6 +3,7 @@ package diodeh
 import (
 	"fmt"
 	"os"
+	"time"
 
 	"verifharness/hlib"
 )
@@ -35,6 +36,9 @@ func openSess(c *hlib.Ctx, prop string) *sess {
 		os.Exit(3)
 	}
 	s := &sess{c: c, b: b, prop: prop, exhaustive: true}
+	if c.Thorough() {
+		JobTimeout = 1800 * time.Second
+	}
 	s.open()
 	return s
 }
